@@ -222,6 +222,9 @@ def cases(tier):
         # fine-grained gates (every resolve/connect/recv) for short targets
         for a, b in itertools.product(['TERR', 'MARK', 'CLEAN'], repeat=2):
             out.append(((a, b), 2, 'text', False, 2, fine, None))
+        # a switch at any one receive of either target (objects shared between two audits in flight show here)
+        for a, b in itertools.product(ARCHS, ARCHS):
+            out.append(((a, b), 2, 'text' if (ARCHS.index(a) + ARCHS.index(b)) % 2 else 'json', False, 1, ('recv',), 400))
     else:
         for a, b in itertools.product(ARCHS, ARCHS):
             for fmt in ('text', 'json'):
@@ -247,10 +250,39 @@ def cases(tier):
     return out
 
 
+# ---- a target whose audit dies of an environment error after its probes (the connection-rate check's connections are rejected with
+# EHOSTUNREACH, which the tool does not expect): the next target on that worker must be reported as if audited alone
+def work_after_crash(chunk, st):
+    import errno
+    for first, second, fmt in chunk:
+        twin = MT.HEALTHY[first]('c')
+        pre = len(H.audit(twin, opts=['-n', '--skip-rate-test']).world.conns)
+        crash = MT.HEALTHY[first]('c')
+        crash.async_refuse = True
+        crash.conn_behaviour = (lambda i, pre=pre: 'normal' if i < pre else errno.EHOSTUNREACH)
+        opts = ['-n'] + (['-j'] if fmt == 'json' else [])
+        res, outs = H.audit_sequence([crash, MT.HEALTHY[second]('x')], opts=opts, hosts=['crash.example', 'x.example'])
+        ref, routs = H.audit_sequence([MT.HEALTHY[second]('x')], opts=opts, hosts=['x.example'])
+        st.execution(res.world, outcome=('after-crash', res.status, fmt), root=('after-crash', first, second, fmt), nontrivial=('after-crash', first, second, fmt))
+        if outs is None or routs is None or len(outs) != 2 or len(routs) != 1:
+            st.violation('after-crashed-target:output-shape', {'first': first, 'second': second, 'fmt': fmt, 'stdout': res.stdout[-300:]})
+            continue
+        a, b = outs[1], routs[0]
+        if fmt == 'text':
+            a, b = MT.norm_block(a), MT.norm_block(b)
+        if a != b:
+            st.violation('result-differs:%s-after-crashed-%s:%s' % (second, first, fmt),
+                         {'first': first, 'second': second, 'diff': _text_diff(a, b) if fmt == 'text' else _json_diff(a, b)})
+    st.sample({'after_crashed_target': [list(x) for x in chunk[:2]]}, cap=3)
+
+
 def run(tier, seed):
     t0 = time.time()
     cs = cases(tier)
     st = par.pmap(work, cs, chunk=4 if tier == 'quick' else 2)
+    firsts = ['RSA1024', 'GEX1024', 'TERR', 'CERTSMALLCA']
+    seconds = ['CLEAN', 'RSA4096', 'GEX4096', 'MARK', 'RSA1024'] if tier == 'quick' else ARCHS
+    par.pmap(work_after_crash, [(a, b, f) for a in firsts for b in seconds if b != 'SSH1' for f in ('text', 'json')], stats=st, chunk=2)
     lines = [('ssh2_kexdb', 2, 2), ('ssh1_kexdb', 2, 2)] if tier == 'quick' else [('ssh2_kexdb', 2, 3), ('ssh1_kexdb', 2, 3), ('ssh2_kexdb', 3, 2), ('ssh1_kexdb', 3, 2)]
     par.pmap(work_lines, lines, stats=st, chunk=1)
     pairs = H.pick(list(itertools.product(ARCHS, ARCHS)), seed, 5 if tier == 'quick' else 30)
@@ -264,7 +296,8 @@ def run(tier, seed):
         rule='ordered pairs (quick) / pairs and triples (thorough) of %d healthy archetypes (one per channel through which a scan edits '
              'rating state) as -T files x --threads x {text,-j,-P}; for each, DFS over gate schedules of connection events with a '
              'preemption bound (quick 1, fine-grained 2; thorough 2-3); plus line-level interleavings (every source line of get_db/thread_exit is a '
-             'scheduling point) of 2-3 threads running the rating-table life cycle, preemption bound 2-3; non-trivial = distinct (targets, threads, completion order, '
+             'scheduling point) of 2-3 threads running the rating-table life cycle, preemption bound 2-3; a switch at any single receive for every ordered pair; '
+             'targets audited after one whose audit died of an environment error; non-trivial = distinct (targets, threads, completion order, '
              'item-to-thread assignment)' % len(ARCHS),
         assumptions=['thread switches only at virtual I/O gates (resolve/connect/recv), see DESIGN 2.4b',
                      'reference = fresh single-target invocation in the same virtual environment'],
